@@ -377,4 +377,21 @@ var Customs = map[string]CustomFn{
 		return 10*x + y, nil
 	},
 	"boom": func(a []interface{}) (interface{}, error) { return nil, ErrOp },
+	"last": func(a []interface{}) (interface{}, error) { // variadic: its last argument
+		if len(a) == 0 {
+			return nil, ErrBuiltin
+		}
+		return a[len(a)-1], nil
+	},
+	"vsum": func(a []interface{}) (interface{}, error) { // variadic integer sum
+		var s int64
+		for _, x := range a {
+			v, ok := x.(int64)
+			if !ok {
+				return nil, ErrBuiltin
+			}
+			s += v
+		}
+		return s, nil
+	},
 }
